@@ -40,7 +40,7 @@ class RaiseEx(Exception):
 
 
 class Obligation:
-    __slots__ = ("clause", "goal", "pc", "path", "meta", "extra")
+    __slots__ = ("clause", "goal", "pc", "path", "meta", "extra", "entry")
 
     def __init__(self, clause, goal, pc, path, meta=None, extra=None):
         self.clause = clause
@@ -49,6 +49,7 @@ class Obligation:
         self.path = path
         self.meta = meta or {}
         self.extra = extra or []
+        self.entry = None
 
 
 FEAS_TIMEOUT_MS = 250
@@ -241,9 +242,9 @@ class Ctx:
         if isinstance(goal, bool):
             goal = z3.BoolVal(goal)
         g = z3.simplify(goal)
-        self.obligations.append(
-            Obligation(clause, g, list(self.pc), tuple(k for k, _ in self.trail), meta, list(self.spec_apps))
-        )
+        ob = Obligation(clause, g, list(self.pc), tuple(k for k, _ in self.trail), meta, list(self.spec_apps))
+        ob.entry = getattr(self, "entry_args", None)
+        self.obligations.append(ob)
         if assume_after:
             self.assume(g)
 
